@@ -193,6 +193,7 @@ func runC16(c *Ctx) {
 	c16Advertised(c)
 	c16OnlyPluginsWriteLifetimes(c)
 	c16DeprecatedWriters(c)
+	freshRA(c, "R-C16-4") // the countdown is only advertised if every RA is generated anew (shared rule)
 	if f := c.needMethod("R-C16-1", "internal/plugin", "Prefix", "lifetimes"); f != nil {
 		c16Lifetimes(c, f, []string{"ValidLifetime", "PreferredLifetime"})
 	}
